@@ -933,7 +933,8 @@ func (in *inst) transfer(b *ssa.BasicBlock, locks LockSet) (LockSet, bool) {
 			returned = true
 			if in.emit {
 				for _, r := range x.Results {
-					if isRefLike(r.Type()) {
+					_, isStruct := r.Type().Underlying().(*types.Struct)
+					if isRefLike(r.Type()) || isStruct {
 						in.rets = append(in.rets, in.prov(r))
 						break
 					}
@@ -1093,6 +1094,31 @@ func (in *inst) opaque(c *ssa.CallCommon, callee *ssa.Function, locks LockSet, p
 	}
 	for k, arg := range args {
 		p := in.prov(arg)
+		// a by-value copy of a shared struct (or a pointer to a local holding
+		// one) handed to library code -- encoders, formatters: its reference
+		// fields still point at the original's maps and slices, which the
+		// callee may read
+		x := arg
+		for {
+			if mi, ok := x.(*ssa.MakeInterface); ok {
+				x = mi.X
+				continue
+			}
+			if ct, ok := x.(*ssa.ChangeType); ok {
+				x = ct.X
+				continue
+			}
+			break
+		}
+		if al, ok := x.(*ssa.Alloc); ok {
+			if sp, ok := in.allocStruct(al); ok {
+				in.structRefsRead(sp.class, deref(al.Type()), locks, pos)
+			}
+		} else if _, isStruct := x.Type().Underlying().(*types.Struct); isStruct {
+			if sp := in.prov(x); sp.kind == pStructVal {
+				in.structRefsRead(sp.class, x.Type(), locks, pos)
+			}
+		}
 		switch p.kind {
 		case pAddr:
 			if isSyncType(arg.Type()) {
@@ -1106,6 +1132,28 @@ func (in *inst) opaque(c *ssa.CallCommon, callee *ssa.Function, locks LockSet, p
 		case pVal:
 			switch arg.Type().Underlying().(type) {
 			case *types.Map, *types.Slice:
+				in.record(p.class, 'R', locks, pos)
+			}
+		}
+	}
+}
+
+// structRefsRead: library code reads what the reference fields of a struct
+// copy (class as in structValField) refer to.
+func (in *inst) structRefsRead(class string, t types.Type, locks LockSet, pos token.Pos) {
+	if strings.HasPrefix(class, "=") {
+		in.record(capClass(class[1:]), 'R', locks, pos)
+		return
+	}
+	st, ok := t.Underlying().(*types.Struct)
+	if !ok {
+		return
+	}
+	for f := 0; f < st.NumFields(); f++ {
+		ft := st.Field(f).Type()
+		switch ft.Underlying().(type) {
+		case *types.Map, *types.Slice:
+			if p := in.structValField(class, st.Field(f).Name(), ft); p.kind == pVal {
 				in.record(p.class, 'R', locks, pos)
 			}
 		}
